@@ -125,6 +125,56 @@ pub fn handle(op: &str, req: &Value) -> Option<Value> {
             json!({"first": format!("{r0:?}").chars().take(60).collect::<String>(), "second": format!("{r1:?}").chars().take(60).collect::<String>(), "memory": mem,
                    "recovered_prepared": np, "recovered_committing": nc, "violates": if prepared { np != 1 } else { np != 0 || nc != 0 }})
         },
+        "coordinator_recover" => {
+            // histories H1 (begin, Yes vote, Prepared) and H2 (H1 + Committing + TxComplete) written by a first coordinator,
+            // optionally cut inside the last record, then a second coordinator recovers from the file
+            use tensor_chain::tx_wal::TxWal;
+            let dir = std::env::var("VERIF_BUILD").unwrap_or_else(|_| "/verif/.build".into());
+            let dir = std::path::PathBuf::from(dir).join("replay-tmp").join(format!("x{}-{}", std::process::id(), now_ms()));
+            let _ = std::fs::create_dir_all(&dir);
+            let path = dir.join("tx.wal");
+            let h2 = req["recover"].as_str() == Some("H2");
+            let tx_id;
+            let mut sizes = vec![];
+            {
+                let wal = match TxWal::open(&path) { Ok(w) => w, Err(e) => return Some(json!({"error": e.to_string()})) };
+                let c = DistributedTxCoordinator::new(ConsensusManager::default_config(), DistributedTxConfig::default()).with_wal(wal);
+                let tx = match c.begin(&"c".to_string(), &[0]) { Ok(t) => t, Err(e) => return Some(json!({"error": e.to_string()})) };
+                tx_id = tx.tx_id;
+                sizes.push(std::fs::metadata(&path).map(|m| m.len()).unwrap_or(0));
+                let mut keys = HashSet::new();
+                keys.insert("k".to_string());
+                let _ = c.record_vote(tx_id, 0, PrepareVote::Yes { lock_handle: 41, delta: DeltaVector::new(&[1.0], keys, tx_id) });
+                sizes.push(std::fs::metadata(&path).map(|m| m.len()).unwrap_or(0));
+                if h2 { let _ = c.commit(tx_id); }
+            }
+            let end = std::fs::metadata(&path).map(|m| m.len()).unwrap_or(0);
+            if !h2 {
+                // the last record of H1 is the Prepared phase change: cut it proportionally
+                let vote_end = sizes[1];
+                // find where the PhaseChange record starts: everything after the vote record. record_vote writes vote then phase.
+                let (off, frame) = (req["cut_offset"].as_u64().unwrap_or(0), req["frame_len"].as_u64().unwrap_or(10).max(1));
+                let _ = vote_end;
+                // the vote record and the phase record were both written by record_vote: split the tail in two halves by replaying lengths
+                let entries = TxWal::open(&path).ok().and_then(|w| w.replay().ok()).map(|e| e.len()).unwrap_or(0);
+                let _ = entries;
+                let phase_len = 4 + 4 + bitcode::serialize(&tensor_chain::tx_wal::TxWalEntry::PhaseChange { tx_id, from: TxPhase::Preparing, to: TxPhase::Prepared }).map(|b| b.len() as u64).unwrap_or(0);
+                let start = end.saturating_sub(phase_len);
+                let cut = if off >= frame { end } else { start + (off * phase_len / frame).min(phase_len.saturating_sub(1)) };
+                std::fs::OpenOptions::new().write(true).open(&path).unwrap().set_len(cut).unwrap();
+            }
+            let wal2 = match TxWal::open(&path) { Ok(w) => w, Err(e) => return Some(json!({"error": e.to_string()})) };
+            let c2 = DistributedTxCoordinator::new(ConsensusManager::default_config(), DistributedTxConfig::default()).with_wal(wal2);
+            let stats = c2.recover_from_wal().map(|s| format!("{s:?}")).map_err(|e| e.to_string());
+            let pending = dump(&c2);
+            let n = pending.as_array().map_or(0, Vec::len);
+            let prepared_ok = pending.as_array().and_then(|a| a.first()).map_or(false, |t| t["tx"].as_u64() == Some(tx_id) && t["phase"].as_u64() == Some(1) && t["votes"] == json!([[0, 0]]));
+            let commit_ok = if n == 1 { Some(c2.commit(tx_id).is_ok()) } else { None };
+            let _ = std::fs::remove_dir_all(&dir);
+            let whole = req["cut_offset"].as_u64().unwrap_or(0) >= req["frame_len"].as_u64().unwrap_or(10);
+            let violates = stats.is_err() || if h2 { n != 0 } else if whole { !(n == 1 && prepared_ok && commit_ok == Some(true)) } else { n != 0 };
+            json!({"stats": format!("{stats:?}"), "pending": pending, "commit_after_recovery": commit_ok, "violates": violates})
+        },
         _ => return None,
     })
 }
